@@ -120,17 +120,16 @@ def _run_lines(exe, lines, timeout):
 
 
 def run_sharded(exe, lines, timeout=1200, shards=None):
+    """Round-robin sharding (cases of similar cost are generated next to each other)."""
     if not lines:
         return []
-    shards = shards or NCPU
-    n = len(lines)
-    size = max(1, (n + shards - 1) // shards)
-    chunks = [lines[i:i + size] for i in range(0, n, size)]
+    shards = min(shards or NCPU, len(lines))
+    chunks = [lines[k::shards] for k in range(shards)]
     with ThreadPoolExecutor(max_workers=shards) as ex:
         res = list(ex.map(lambda c: _run_lines(exe, c, timeout), chunks))
-    out = []
-    for r in res:
-        out.extend(r)
+    out = [None] * len(lines)
+    for k, r in enumerate(res):
+        out[k::shards] = r
     return out
 
 
